@@ -1,7 +1,7 @@
 #!/venv/bin/python
 """Development tool: take in and evaluate a seeded change.
 
-  tools/seeded.py intake <OUT dir> <n> <PROP> [--suite]   copy mut<n>.diff / demo<n>.py into seeded/<PROP>-<n>/,
+  tools/seeded.py intake <OUT dir> <n> <PROP> [--suite] [--as M]   copy mut<n>.diff / demo<n>.py into seeded/<PROP>-<n>/,
                                                           confirm: applies, demo passes without / fails with the change,
                                                           (--suite) repository suite passes with the change
   tools/seeded.py run <seeded dir> [checks...] [--tier T] run checks (default: the property's own) against a scratch
@@ -46,15 +46,15 @@ def run_demo(wt, demo):
               timeout=900).returncode
 
 
-def intake(out, n, prop, suite):
-    d = os.path.join(HERE, 'seeded', '%s-%s' % (prop, n))
+def intake(out, n, prop, suite, as_n=None):
+    d = os.path.join(HERE, 'seeded', '%s-%s' % (prop, as_n or n))
     os.makedirs(d, exist_ok=True)
     shutil.copy(os.path.join(out, 'mut%s.diff' % n), os.path.join(d, 'patch.diff'))
     shutil.copy(os.path.join(out, 'demo%s.py' % n), os.path.join(d, 'demo.py'))
     notes = os.path.join(out, 'notes.md')
     if os.path.exists(notes):
         shutil.copy(notes, os.path.join(d, 'agent_notes.md'))
-    wt = worktree('%s_%s' % (prop, n))
+    wt = worktree('%s_%s' % (prop, as_n or n))
     meta = {'property': prop, 'origin': 'independent sub-agent given only the property text and a scratch worktree',
             'ran': []}
     try:
@@ -109,7 +109,7 @@ def run(d, checks, tier):
 if __name__ == '__main__':
     a = sys.argv[1:]
     if a[0] == 'intake':
-        intake(a[1], a[2], a[3], '--suite' in a)
+        intake(a[1], a[2], a[3], '--suite' in a, a[a.index('--as') + 1] if '--as' in a else None)
     else:
         tier = 'quick'
         if '--tier' in a:
